@@ -64,6 +64,9 @@ type Case struct {
 	// TwinChain: the signer uses a re-issued twin of the usual chain: same subjects, same serial
 	// numbers, other keys (the annotations speak about the certificates actually used)
 	TwinChain bool `json:"twinChain,omitempty"`
+	// Zone: the local time zone of the signing process ("" = UTC as in this sandbox, else an offset in
+	// minutes east of Greenwich): the signing-time annotation names an instant, wherever the host is
+	Zone int `json:"zone,omitempty"`
 	// KeySpec: the signer's key is of another kind than the default P-256 (its signature
 	// algorithm then uses another hash than SHA-256; the thumbprints are SHA-256 all the same)
 	KeySpec string `json:"keySpec,omitempty"`
@@ -268,6 +271,11 @@ func readIndexEntry(dir string, dg digest.Digest) (*indexEntry, error) {
 
 func run(c *Case) (string, string) {
 	ctx := context.Background()
+	if c.Zone != 0 {
+		old := time.Local
+		time.Local = time.FixedZone("verif", c.Zone*60)
+		defer func() { time.Local = old }()
+	}
 	ch := chainOf(c)
 	var inner notation.Signer
 	inner, err := signer.NewGenericSigner(ch.Leaf().Key, ch.X509())
@@ -613,6 +621,7 @@ func TestC11_Sequences(t *testing.T) {
 		c.PluginSigner = rp.Pick(rt, "pluginSigner", "", "", "raw", "envelope", "envelope-drops-annotations")
 		c.MovingTag = c.Repo == "scripted" && rapid.IntRange(0, 2).Draw(rt, "movingTag") == 0
 		c.TwinChain = rapid.Bool().Draw(rt, "twinChain")
+		c.Zone = rp.Pick(rt, "zone", 0, 0, 330, -480, 840, -210)
 		if c.Ref == "digest-elsewhere" && c.Repo != "scripted" {
 			c.Ref = "tag"
 		}
@@ -653,6 +662,9 @@ func TestC11_Sequences(t *testing.T) {
 		}
 		if c.MovingTag {
 			cl = append(cl, "reference-moves-after-first-resolve")
+		}
+		if c.Zone != 0 {
+			cl = append(cl, "host-not-in-utc")
 		}
 		rec.Case(cl, len(c.ArtAnn) > 0 || c.Calls >= 2, stats.Fingerprint(fmt.Sprintf("%+v", *c)), func() any { return c })
 		key, msg := run(c)
